@@ -442,6 +442,13 @@ func (s Segment) forRewrite() (*RewriteSegment, error) {
 }
 
 func (src Segment) Rewrite(dropOffsets map[int64]struct{}, params index.Params, mversion message.Version, iversion index.Version) (*RewriteSegment, error) {
+	return src.RewriteLimit(-1, dropOffsets, params, mversion, iversion)
+}
+
+// RewriteLimit is like Rewrite, but when limit is not negative it only reads the messages
+// before the limit position. A segment that is still appended to must be rewritten up to
+// a position that is known to be completely written, otherwise a half written message is read.
+func (src Segment) RewriteLimit(limit int64, dropOffsets map[int64]struct{}, params index.Params, mversion message.Version, iversion index.Version) (*RewriteSegment, error) {
 	dst, err := src.forRewrite()
 	if err != nil {
 		return nil, err
@@ -464,7 +471,7 @@ func (src Segment) Rewrite(dropOffsets map[int64]struct{}, params index.Params, 
 	var srcPosition = srcLog.InitialPosition()
 	var indexTime int64
 	var dstIndex []index.Item
-	for {
+	for limit < 0 || srcPosition < limit {
 		msg, nextSrcPosition, err := srcLog.Read(srcPosition)
 		if err != nil {
 			if errors.Is(err, io.EOF) {
